@@ -583,6 +583,128 @@ fn same_thread_sequences(rep: &mut Report, only: Option<&str>) {
     *rep.tags.entry("same-thread-sequences".into()).or_insert(0) += 1;
 }
 
+/// values at the edges of the number range: entries whose squares underflow, scalars next to 1 and to 0, huge scalars
+/// - every storage, every position, against the dense definition
+fn edge_values(rep: &mut Report, only: Option<&str>) {
+    let tiny = [1e-180, -1e-200, 5e-324, 1e-162, -0.0];
+    let scalars = [1.0 + f64::EPSILON, 1.0 - f64::EPSILON / 2.0, 1.0 - f64::EPSILON, 0.1 + 0.2 + 0.3 + 0.4, -1.0 - f64::EPSILON, f64::EPSILON, 1e-300, 1e300, -0.0];
+    for n in 1..=5usize {
+        // (label, ml, mu): ml = usize::MAX marks the non-banded storages
+        let mut stor: Vec<(String, usize, usize)> = vec![("identity".into(), usize::MAX, 0), ("full".into(), usize::MAX, 1)];
+        for ml in 0..n {
+            for mu in 0..n {
+                stor.push((format!("banded({},{})", ml, mu), ml, mu));
+            }
+        }
+        for (label, ml, mu) in &stor {
+            let make = || -> (Matrix, Vec<f64>) {
+                let d = ident_dense(n);
+                let m = if label == "identity" {
+                    Matrix::identity(n)
+                } else if label == "full" {
+                    let mut m = Matrix::full(n, n);
+                    for i in 0..n {
+                        m[(i, i)] = 1.0;
+                    }
+                    m
+                } else {
+                    let mut m = Matrix::banded(n, *ml, *mu);
+                    for i in 0..n {
+                        m[(i, i)] = 1.0;
+                    }
+                    m
+                };
+                (m, d)
+            };
+            // (a) the unit matrix with one tiny off-diagonal (or diagonal) perturbation
+            if label != "identity" {
+                for i in 0..n {
+                    for j in 0..n {
+                        let inband = *ml == usize::MAX || ((i as isize - j as isize) <= *ml as isize && (j as isize - i as isize) <= *mu as isize);
+                        if !inband {
+                            continue;
+                        }
+                        for (ti, &t) in tiny.iter().enumerate() {
+                            let key = format!("edge:tiny:{}:{}:{}:{}:{}", n, label, i, j, ti);
+                            if only.map(|o| o != key).unwrap_or(false) {
+                                continue;
+                            }
+                            rep.evaluations += 1;
+                            rep.validated += 1;
+                            let r = guarded(|| {
+                                let (mut m, mut d) = make();
+                                let v = if i == j { 1.0 + t } else { t };
+                                m[(i, j)] = v;
+                                d[i * n + j] = v;
+                                disagree(&m, &d)
+                            });
+                            let msg = match r {
+                                Ok(None) => continue,
+                                Ok(Some(m)) => m,
+                                Err(p) => format!("panicked: {}", p),
+                            };
+                            rep.violations.push(Violation::new(&key, "edge-value", format!("{} unit matrix of size {} with entry ({},{}) set to {}{:e}: {}", label, n, i, j, if i == j { "1 + " } else { "" }, t, msg), json!({"key": key})).with("constructor", label.as_str()));
+                        }
+                    }
+                }
+            }
+            // (b) scalar operations with scalars next to 1 / 0 / the ends of the range, on a filled matrix
+            for (si, &c) in scalars.iter().enumerate() {
+                for kind in 0..4usize {
+                    let key = format!("edge:scalar:{}:{}:{}:{}", n, label, si, kind);
+                    if only.map(|o| o != key).unwrap_or(false) {
+                        continue;
+                    }
+                    rep.evaluations += 1;
+                    rep.validated += 1;
+                    let r = guarded(|| {
+                        let (mut m, mut d) = make();
+                        if label != "identity" {
+                            for i in 0..n {
+                                for j in 0..n {
+                                    let inband = *ml == usize::MAX || ((i as isize - j as isize) <= *ml as isize && (j as isize - i as isize) <= *mu as isize);
+                                    if inband {
+                                        let v = 0.75 + (i * n + j) as f64 / 3.0;
+                                        m[(i, j)] = v;
+                                        d[i * n + j] = v;
+                                    }
+                                }
+                            }
+                        }
+                        let m2 = match kind {
+                            0 => {
+                                d.iter_mut().for_each(|v| *v *= c);
+                                m.component_mul(c)
+                            }
+                            1 => {
+                                d.iter_mut().for_each(|v| *v *= c);
+                                m.component_mul_mut(c);
+                                m
+                            }
+                            2 => {
+                                d.iter_mut().for_each(|v| *v += c);
+                                m.component_add(c)
+                            }
+                            _ => {
+                                d.iter_mut().for_each(|v| *v -= c);
+                                m.component_sub(c)
+                            }
+                        };
+                        disagree(&m2, &d)
+                    });
+                    let msg = match r {
+                        Ok(None) => continue,
+                        Ok(Some(m)) => m,
+                        Err(p) => format!("panicked: {}", p),
+                    };
+                    rep.violations.push(Violation::new(&key, "edge-value", format!("{} matrix of size {}, {} with the scalar {:e} ({:016x}): {}", label, n, ["component_mul", "component_mul_mut", "component_add", "component_sub"][kind], c, c.to_bits(), msg), json!({"key": key})).with("constructor", label.as_str()));
+                }
+            }
+        }
+    }
+    *rep.tags.entry("edge-values".into()).or_insert(0) += 1;
+}
+
 /// the documented contract of `Matrix::diagonal`: ml = mu = 0 storage, writable on its diagonal
 fn diag_contract_of(label: &str, n: usize, m: &Matrix) -> Option<String> {
     // the triangular constructors: a band that holds the whole triangle, writable in its far corner
@@ -697,6 +819,16 @@ pub fn run(replay: Option<Value>) -> i32 {
             }
             return if rep.violations.is_empty() { 0 } else { 1 };
         }
+        if let Some(key) = case["key"].as_str().filter(|k| k.starts_with("edge:")) {
+            edge_values(&mut rep, Some(key));
+            for v in &rep.violations {
+                println!("replay: VIOLATED: {}", v.msg);
+            }
+            if rep.violations.is_empty() {
+                println!("replay: property holds on this case");
+            }
+            return if rep.violations.is_empty() { 0 } else { 1 };
+        }
         if let Some(key) = case["key"].as_str().filter(|k| k.starts_with("filled-then-written")) {
             filled_then_written(&mut rep, Some(key));
             for v in &rep.violations {
@@ -752,6 +884,7 @@ pub fn run(replay: Option<Value>) -> i32 {
     };
     filled_then_written(&mut rep, None);
     same_thread_sequences(&mut rep, None);
+    edge_values(&mut rep, None);
     let mut lattice = vec![];
     let mut total_states = 0u64;
     let mut total_by_value = 0u64;
